@@ -27,7 +27,10 @@ From Coq Require Import QArith.
 (* class of an element as far as merge_parts distinguishes classes (isinstance tests, so a
    subclass has the kind of the listed base class: LoudnessDirection is a Direction, ...) *)
 Inductive kind :=
-| KNote | KGrace | KRest                    (* GenericNote *)
+| KNote | KGrace | KRest                    (* GenericNote: Note, GraceNote, Rest *)
+| KUnpitched                                (* GenericNote that is neither a Note nor a Rest: UnpitchedNote
+                                               (percussion), a bare GenericNote -- renumbered like a note, not
+                                               a row of the note array (Part.notes_tied selects Note) *)
 | KWords | KDirection | KClef              (* carry a staff that "staff"/"auto" renumber *)
 | KMeasure | KTimeSig | KKeySig | KBarline | KPage | KSystem   (* documented: first part only *)
 | KDaCapo | KFine | KFermata | KEnding | KTempo                (* also in el_to_discard *)
@@ -38,7 +41,7 @@ Definition kind_code (k : kind) : Z :=
   | KNote => 0 | KGrace => 1 | KRest => 2 | KWords => 3 | KDirection => 4 | KClef => 5
   | KMeasure => 6 | KTimeSig => 7 | KKeySig => 8 | KBarline => 9 | KPage => 10 | KSystem => 11
   | KDaCapo => 12 | KFine => 13 | KFermata => 14 | KEnding => 15 | KTempo => 16
-  | KSlur => 17 | KTuplet => 18 | KOther => 19
+  | KSlur => 17 | KTuplet => 18 | KOther => 19 | KUnpitched => 20
   end.
 Definition kind_eqb (a b : kind) : bool := Z.eqb (kind_code a) (kind_code b).
 
@@ -59,11 +62,11 @@ Definition part := (list elem * Z)%type.       (* elements in iteration order, q
 Inductive mode := MVoice | MStaff | MAuto.
 
 Definition is_generic (k : kind) : bool :=
-  match k with KNote | KGrace | KRest => true | _ => false end.
+  match k with KNote | KGrace | KRest | KUnpitched => true | _ => false end.
 
 (* isinstance(e, (GenericNote, Words, Direction, Clef)) *)
 Definition is_staffed (k : kind) : bool :=
-  match k with KNote | KGrace | KRest | KWords | KDirection | KClef => true | _ => false end.
+  match k with KNote | KGrace | KRest | KUnpitched | KWords | KDirection | KClef => true | _ => false end.
 
 (* el_to_discard of the mode *)
 Definition discard (m : mode) (k : kind) : bool :=
@@ -217,14 +220,56 @@ Definition merge_parts (m : mode) (ts : list tree) : result :=
     end
   end.
 
+(* ------------------------------------------------------------------ the argument (dispatch) *)
+
+(* What merge_parts is given.  "if isinstance(parts, Score): parts = parts.parts  else: parts =
+   list(iter_parts(parts))":
+     * a Score holds the flat list of its parts, computed once by Score.__init__ as
+       list(iter_parts(partlist)) from the Part / PartGroup / list it was built from;
+     * a list or tuple of parts and groups is traversed depth first by iter_parts;
+     * anything else (a Part, a PartGroup) is wrapped by iter_parts into a one-element list. *)
+Inductive arg :=
+| AScore (partlist : list tree)
+| ASeq (items : list tree)
+| AOne (t : tree).
+
+Definition score_parts (partlist : list tree) : list part := flat_map flatten partlist.   (* Score.__init__: self.parts *)
+
+Definition arg_trees (a : arg) : list tree :=
+  match a with
+  | AScore partlist => map TPart (score_parts partlist)
+  | ASeq items => items
+  | AOne t => [t]
+  end.
+
+Definition merge_parts_arg (m : mode) (a : arg) : result := merge_parts m (arg_trees a).
+
+(* partitura.io.load_score_as_part: merge_parts(load_score(filename).parts) -- the flat part list of the
+   loaded score, default reassign ("voice") *)
+Definition load_as_part (parts : list part) : result := merge_parts_arg MVoice (ASeq (map TPart parts)).
+
+(* ------------------------------------------------------------------ the offsets as running sums *)
+
+(* the offsets in force when part j is transferred: the sums over the parts before it *)
+Definition offs_at (ps : list part) (j : nat) : offs :=
+  fold_left next_offs (map fst (firstn j ps)) (mkOffs 0 0 0).
+
+Definition zsum (l : list Z) : Z := fold_right Z.add 0 l.
+
+(* every kept generic element carries a voice (otherwise "voice" / "auto" raise) *)
+Definition all_voiced (ps : list part) : bool :=
+  forallb (fun p => forallb (fun e => negb (is_generic (e_kind e)) || match e_voice e with Some _ => true | None => false end) (fst p)) ps.
+
 (* ------------------------------------------------------------------ sounding notes (C05) *)
 
-(* the GenericNote elements as C05 notes; the spelling is chosen so that midi_pitch = e_pitch *)
+(* the GenericNote elements as C05 notes; the spelling is chosen so that midi_pitch = e_pitch.
+   n_rest marks the objects that are not rows of the note array: Rest, and the GenericNotes that are
+   not Note instances (KUnpitched) -- Part.notes_tied iterates Note and its subclasses only *)
 Definition note_of (e : elem) : note :=
   mkNote (e_oid e) ""%string (e_start e) (oz (e_end e) (e_start e)) (e_tie_prev e) (e_tie_next e)
          "C"%string (Some (e_pitch e)) (-1) (e_voice e) (e_staff e)
          (match e_kind e with KGrace => Some "grace"%string | _ => None end)
-         (match e_kind e with KRest => true | _ => false end).
+         (match e_kind e with KRest | KUnpitched => true | _ => false end).
 
 Definition notes_of (es : list elem) : list note :=
   map note_of (filter (fun e => is_generic (e_kind e)) es).
@@ -354,10 +399,71 @@ Definition link_ok (m : mode) (ts : list tree) : bool :=
   | _, _ => false
   end.
 
-Definition full_case_ok (m : mode) (ts : list tree) (obs : observed) (marr : list nrow)
+(* the closed forms evaluated on what the implementation produced: every observed element (j, e') is
+   the element of input j with that identity, rescaled by L / d and renumbered with the offsets
+   [offs_at ps j] (the running sums over the inputs before j) ... *)
+Fixpoint find_elem (oid : Z) (es : list elem) : option elem :=
+  match es with
+  | [] => None
+  | e :: r => if Z.eqb (e_oid e) oid then Some e else find_elem oid r
+  end.
+
+Definition offsets_ok (m : mode) (ps : list part) (L : Z) (out' : list (nat * elem)) : bool :=
+  forallb (fun x : nat * elem =>
+    match nth_error ps (fst x) with
+    | Some (es, d) =>
+      match find_elem (e_oid (snd x)) es with
+      | Some e =>
+        match renumber m (offs_at ps (fst x)) (uniq (voices_of es)) (uniq (staves_of es)) (rescale_elem (L / d) e) with
+        | Some e' => elem_eqb e' (snd x)
+        | None => false
+        end
+      | None => false
+      end
+    | None => false
+    end) out'.
+
+(* ... and the observed elements of the discarded classes are exactly those of the first input,
+   rescaled (structural_exactly_first) *)
+Definition structural_ok (m : mode) (ps : list part) (L : Z) (out' : list (nat * elem)) : bool :=
+  match ps with
+  | (es0, d0) :: _ =>
+    list_eqb tagged_eqb
+      (sort_oid (filter (fun x : nat * elem => discard m (e_kind (snd x))) out'))
+      (sort_oid (map (pair 0%nat) (map (rescale_elem (L / d0)) (filter (fun e => discard m (e_kind e)) es0))))
+  | [] => false
+  end.
+
+Definition full_case_ok (m : mode) (a : arg) (obs : observed) (marr : list nrow)
            (Ls : Z) (sarr : list (Z * Z * Z)) : bool :=
-  case_ok m ts obs &&
-  match obs with
-  | OMerged _ _ => merged_array_ok m ts marr && score_array_ok ts Ls sarr && link_ok m ts
-  | _ => true
+  let ts := arg_trees a in
+  match merge_parts_arg m a, obs with
+  | RSingle p, OSingle idx p' =>
+    Nat.eqb idx 0 && part_eqb p p' && Nat.eqb (List.length (flat_map flatten ts)) 1
+  | RMerged L out, OMerged L' out' =>
+    Z.eqb L L' && list_eqb tagged_eqb (sort_oid out) (sort_oid out') &&
+    offsets_ok m (flat_map flatten ts) L' out' && structural_ok m (flat_map flatten ts) L' out' &&
+    merged_array_ok m ts marr && score_array_ok ts Ls sarr && link_ok m ts
+  | RRaise, ORaise => negb (Nat.leb 2 (List.length (flat_map flatten ts))) ||
+                      (negb (match m with MStaff => true | _ => false end) && negb (all_voiced (flat_map flatten ts)))
+  | _, _ => false
+  end.
+
+(* load_score_as_part(file): [parts] are the parts of load_score(file); [impl] is the note array (with
+   staff) of the part the loader returned *)
+Definition loader_case_ok (parts : list part) (single : bool) (impl : list nrow) : bool :=
+  match load_as_part parts with
+  | RMerged L out =>
+    negb single &&
+    match merged_rows L out with
+    | Some rows => same_nrows (map nrow_of rows) impl
+    | None => false
+    end
+  | RSingle p =>
+    single &&
+    match part_rows p with
+    | Some rows => same_nrows (map nrow_of rows) impl
+    | None => false
+    end
+  | RRaise => false
   end.
